@@ -128,12 +128,72 @@ def oracle(case, rec):
     return None
 
 
+# ---------------------------------------------------------------- float replay of the PCov-FPS loop
+def gen_float_case(rng, quick):
+    n = rng.randint(3, 10 if quick else 30)
+    d = rng.randint(2, 6 if quick else 12)
+    axis = rng.choice([0, 1])
+    fam = rng.choice(["normal", "normal", "dups", "scaled", "lowrank"])
+    if fam == "normal":
+        X = [[rng.gauss(0, 1) for _ in range(d)] for _ in range(n)]
+    elif fam == "dups":
+        base = [[rng.gauss(0, 1) for _ in range(d)] for _ in range(max(2, n // 2))]
+        X = [list(rng.choice(base)) for _ in range(n)]
+    elif fam == "scaled":
+        X = [[rng.gauss(0, 1) * 10 ** rng.randint(-3, 3) for _ in range(d)] for _ in range(n)]
+    else:
+        a = [[rng.gauss(0, 1) for _ in range(2)] for _ in range(n)]
+        b = [[rng.gauss(0, 1) for _ in range(d)] for _ in range(2)]
+        X = [[sum(a[i][k] * b[k][j] for k in range(2)) for j in range(d)] for i in range(n)]
+    py = rng.choice([1, 2])
+    y = [[rng.gauss(0, 1) for _ in range(py)] for _ in range(n)]
+    ncand = n if axis == 0 else d
+    return dict(X=X, y=y, axis=axis, mixing=rng.choice([0.0, 0.1, 0.5, 0.9, rng.random() * 0.99]),
+                init=rng.randrange(ncand), nts=rng.randint(1, ncand), family=fam)
+
+
+def run_float_impl(case):
+    sel = S.make_selector("pcovfps", case["axis"], mixing=case["mixing"], initialize=case["init"],
+                          n_to_select=case["nts"])
+    sel.fit(np.array(case["X"], float), np.array(case["y"], float))
+    return dict(D=[[float(v) for v in r] for r in np.asarray(sel.pcovr_distance_)],
+                sel=[int(i) for i in sel.selected_idx_],
+                haus=[float(v) for v in sel.get_distance()],
+                seld=[float(v) for v in sel.get_select_distance()])
+
+
+def float_case_coq(case, r):
+    return "fcase_ok %s %s %d%%nat %d%%nat %s %s %s" % (
+        C.fmat(r["D"]), "true" if case["axis"] == 1 else "false", case["init"], case["nts"],
+        C.natlist(r["sel"]), C.flist(r["haus"]), C.flist(r["seld"]))
+
+
+def float_oracle(case, r):
+    """the loop must pick a farthest candidate w.r.t. the distance induced by its own matrix D."""
+    D = np.array(r["D"])
+    n = len(D)
+    sel = r["sel"]
+    if len(set(sel)) != len(sel) or len(sel) != case["nts"] or sel[0] != case["init"]:
+        return "selection %s malformed" % sel
+    d2 = np.add.outer(np.diag(D), np.diag(D)) - 2 * (D if case["axis"] == 0 else D.T)
+    scale = max(1e-300, float(np.max(np.abs(d2))))
+    for t in range(1, len(sel)):
+        mind = np.min(d2[:, sel[:t]], axis=1)
+        rest = [j for j in range(n) if j not in sel[:t]]
+        if mind[sel[t]] < max(mind[rest]) - 1e-9 * scale:
+            return "step %d: picked %d at %g, farthest unselected is at %g" % (t, sel[t], mind[sel[t]], max(mind[rest]))
+    true_tab = np.min(d2[:, sel], axis=1)
+    if not np.allclose(true_tab, r["haus"], rtol=1e-9, atol=1e-9 * scale):
+        return "distance table differs from the minimum distances induced by pcovr_distance_"
+    return None
+
+
 def finding_key(case, msg):
     return None
 
 
 def run(ctx):
-    po = C.proof_obligations(ctx.prop)
+    po = C.proof_obligations(ctx.prop, extra_targets=["Model/FPSFloat.vo"])
     ncases = 600 if ctx.quick else 12000
     cases, recs = [], []
     stats = dict(kinds={}, families={}, ties=0, multi_init=0, random_init=0, errors=0)
@@ -174,7 +234,37 @@ def run(ctx):
         shards.append(C.SHARD_HEAD + "From Verif Require Import ListX Greedy FPS.\n"
                       "Definition verdicts : list bool := [\n %s].\n"
                       "Eval vm_compute in (failing verdicts).\n" % body)
+    # float replay family (PCov-FPS loop on the implementation's own pcovr_distance_, both directions)
+    fcases = [gen_float_case(ctx.rng, ctx.quick) for _ in range(150 if ctx.quick else 2000)]
+    fress = [run_float_impl(c) for c in fcases]
+    fper = 150
+    fgroups = [list(range(i, min(i + fper, len(fcases)))) for i in range(0, len(fcases), fper)]
+    for g in fgroups:
+        body = ";\n ".join(float_case_coq(fcases[i], fress[i]) for i in g)
+        shards.append(C.SHARD_HEAD + "From Coq Require Import PrimFloat List.\nImport ListNotations.\n"
+                      "From Verif Require Import ListX FPSFloat.\nOpen Scope float_scope.\n"
+                      "Definition verdicts : list bool := [\n %s].\n"
+                      "Eval vm_compute in (failing verdicts).\n" % body)
+    stats["float_replay_cases"] = len(fcases)
+    stats["float_replay_axis1"] = sum(c["axis"] == 1 for c in fcases)
     outs = C.run_shards(ctx.prop, shards)
+    fouts = outs[len(groups):]
+    outs = outs[:len(groups)]
+    for g, (rc, out) in zip(fgroups, fouts):
+        lists = C.parse_nat_lists(out)
+        if rc != 0 or len(lists) != 1:
+            C.report_violation(ctx, "float replay shard did not evaluate", dict(coq_output=out[-1500:]), found_input=False)
+            continue
+        for k in lists[0]:
+            i = g[k]
+            msg = float_oracle(fcases[i], fress[i])
+            rep = dict(case=fcases[i], observed=fress[i], kind="float_replay",
+                       correspondence="fcase_ok (Model/FPSFloat.v)")
+            if msg:
+                C.report_violation(ctx, "C02 fails on the implementation (PCov-FPS loop): " + msg, rep, found_input=True)
+            else:
+                C.report_violation(ctx, "bit-exact float replay of the PCov-FPS loop disagrees with the implementation",
+                                   rep, found_input=False)
     mismatched, corr_broken = [], []
     for g, (rc, out) in zip(groups, outs):
         lists = C.parse_nat_lists(out)
@@ -218,6 +308,10 @@ def run(ctx):
 
 def replay(ctx, obj):
     c = obj["case"]
+    if obj.get("kind") == "float_replay":
+        msg = float_oracle(c, run_float_impl(c))
+        print("replay:", msg or "property holds on this input now")
+        return 1 if msg else 0
     r = run_impl(c)
     msg = oracle(c, r)
     print("replay:", msg or "property holds on this input now")
